@@ -12,7 +12,8 @@
 #include "vx_stubs.hpp"
 #ifdef CUT_DOTDOT
 // cut: the "/seg/../" normalisation is the identity on the strings considered here (no ".." - assumed below); it has its own harness (dotdot)
-void XMLPlatformUtils::removeDotDotSlash(XMLCh* const, MemoryManager* const) {}
+static int vx_dd_calls; static const XMLCh* vx_dd_arg[4];
+void XMLPlatformUtils::removeDotDotSlash(XMLCh* const p, MemoryManager* const) { if (vx_dd_calls < 4) vx_dd_arg[vx_dd_calls] = p; vx_dd_calls++; }   // recorder: WHICH strings get normalised is asserted below
 #endif
 #ifndef NH
 #define NH 4
@@ -32,12 +33,18 @@ extern "C" void harness_location(void) {
   {
     XIncludeLocation loc(href);
     const XMLCh* l0 = loc.getLocation();
+#ifdef CUT_DOTDOT
+    VX_ASSERT(vx_dd_calls == 1 && vx_dd_arg[0] == l0, "the href copy is normalised (/seg/../ removed) when the location is constructed");
+#endif
     for (XMLSize_t i = 0; i <= NH; i++) if (i <= hl) VX_ASSERT(l0[i] == href[i], "location initially equals the href");
     const XMLCh* r = loc.prependPath(base);
     // reference: base[0..lastSlash] + href (no scheme possible within NH < 7 units)
     int ls = -1; for (int i = 0; i < NB; i++) if ((XMLSize_t)i < bl && base[i] == '/') ls = i;
     if (ls < 0) for (int i = 0; i < NB; i++) if ((XMLSize_t)i < bl && base[i] == '\\') ls = i;
     VX_ASSERT(r != 0, "prependPath yields a location");
+#ifdef CUT_DOTDOT
+    VX_ASSERT(vx_dd_calls == 2 && vx_dd_arg[1] == base, "the base is normalised before it is prepended");
+#endif
     for (int i = 0; i < NB; i++) if (i <= ls) VX_ASSERT(r[i] == base[i], "result starts with the base up to its last slash");
     for (XMLSize_t i = 0; i <= NH; i++) if (i <= hl) VX_ASSERT(r[ls + 1 + i] == href[i], "result continues with the href and is terminated");
     if (ls >= 0 && hl == NH) VX_REACH("base with slash and full-length href");
